@@ -16,7 +16,7 @@ Proof. exact task_vars_do_not_persist. Qed.
 Theorem C02_register_visible_afterwards : forall q root fs run_inc t st ext evs r reg evs' st',
   extend_vars t st = Some ext ->
   (match t_when t with Some e => cond ext e | None => Some true end) = Some true ->
-  exec_mod q root fs run_inc t st ext = MOk evs r -> t_register t = Some reg ->
+  exec_mod q root fs run_inc t st ext = MOk evs r -> t_register t = Some reg -> t_changed_when t = None ->
   exec_module q root fs run_inc t st = (evs', Ok st') ->
   lookup st' reg = result_val (m_changed r) (m_output r) (m_extra r) /\
   forall k, k <> reg -> lookup st' k = lookup (m_vars r) k.
